@@ -59,7 +59,13 @@ def run(ctx, rep: Report, deep: bool = False):
     cases, metas = [], []
 
     def add(base, specs, root, sched, tag):
-        out = FS.run_real(FS.build_real(base, specs), sched)
+        try:
+            objs = FS.build_real(base, specs)
+        except FS.ViewLength as e:
+            rep.evaluations += 1
+            rep.findings.append(Finding(f"{e.kind}-view-length", {"base_len": len(base), "specs": [list(map(str, sp)) for sp in specs], "reported": e.got, "content": e.want}))
+            return
+        out = FS.run_real(objs, sched)
         cases.append(Case(FS.scenario_line(base, specs, sched), " ; ".join(out), tag))
         oracle_case(rep, base, specs, root, sched, out)
         for op, o in zip(sched, out):
